@@ -107,7 +107,8 @@ def exec_run(world, run, prop=None):
 # known findings
 # ----------------------------------------------------------------------
 def load_findings():
-    p = os.path.join(VERIF, 'known_findings.json')
+    # VERIF_FINDINGS is for the self-test of the known-finding path only; registered commands never set it
+    p = os.environ.get('VERIF_FINDINGS') or os.path.join(VERIF, 'known_findings.json')
     if not os.path.exists(p):
         return []
     with open(p) as f:
